@@ -235,3 +235,32 @@ def canon_text(fn: FunctionInfo, node: ast.AST) -> str:
         if isinstance(n, ast.Name) and n.id in mapping:
             n.id = mapping[n.id]
     return unparse(clone)
+
+
+def private_call_sites(prog: Program, f: FunctionInfo) -> list[tuple[FunctionInfo, ast.Call]] | None:
+    """Every call site of a private helper (matched by name over the whole program: a superset of the real ones), or None when not all
+    callers can be seen: a public or dunder name, a property, a nested function, a decorated function, a name that is ever used as a value
+    (stored, passed, compared) or referenced while a module or class body runs."""
+    if not f.name.startswith("_") or (f.name.startswith("__") and f.name.endswith("__")) or f.is_property or f.is_setter or f.outer is not None:
+        return None
+    if any(d.split(".")[-1] not in ("staticmethod", "classmethod", "cache", "lru_cache") for d in f.decorators):
+        return None
+    idx = prog.__dict__.get("_private_refs")
+    if idx is None:
+        idx = prog.__dict__["_private_refs"] = {}
+        for mod in prog.modules.values():
+            for n in ast.walk(mod.tree):
+                if isinstance(n, ast.Name) and isinstance(n.ctx, ast.Load) and n.id.startswith("_"):
+                    idx.setdefault(n.id, []).append(n)
+                elif isinstance(n, ast.Attribute) and n.attr.startswith("_"):
+                    idx.setdefault(n.attr, []).append(n)
+    out: list[tuple[FunctionInfo, ast.Call]] = []
+    for n in idx.get(f.name, []):
+        par = parent(n)
+        if not (isinstance(par, ast.Call) and par.func is n):
+            return None
+        g = prog.fn_containing(n)
+        if g is None:
+            return None
+        out.append((g, par))
+    return out or None
